@@ -64,7 +64,7 @@ SetAsSeq(S) == IF S = {} THEN <<>> ELSE LET x == CHOOSE y \in S : TRUE IN <<x>> 
 
 MaxFails == 12
 MaxKeys == 24
-NoteNames == {"untrimmed_skipped", "untrimmed_compared", "def", "reads", "work", "purge_exact",
+NoteNames == {"expected_exc", "untrimmed_skipped", "untrimmed_compared", "def", "reads", "work", "purge_exact",
               "reindex", "recalc_same", "noninterference", "args"}
 \* TRACE_DEBUG=1 lists unchecked comparisons among the failures (diagnosis only)
 DebugUnch == "TRACE_DEBUG" \in DOMAIN IOEnv
@@ -309,6 +309,9 @@ Expected(T, ms, q) ==
        [] q.w = "hex.reading" -> HexReading(ms, js, q.n, q.i)
        [] q.w = "hex.prev_reading" -> HexReading(ms, js, q.n, -2)
        [] q.w = "hex.has_reading" -> BoolV(HexReading(ms, js, q.n, -1).t # "n")
+       [] q.w = "hex.candles" ->      \* Hexital.candles(timeframe): that manager's list, else the default
+            ListV([i \in 1..Len(ms[MaxI(q.j, 1)]) |-> IntV(ms[MaxI(q.j, 1)][i].ts)])
+       [] q.w = "hex.timeframes" -> IntV(Cardinality(mgs))
        [] q.w = "hex.reading_as_list" ->
             IF q.j = 0 THEN ListV(<<>>) ELSE ListV([i \in 1..n |-> GetRef(cs[i], q.n)])
        [] OTHER -> [t |-> "skip"]
@@ -385,7 +388,11 @@ StepFindings(T, e, post) ==
               \* has survived every trim (C15's precondition)
               rd  == T.mg[j].life < 0 \/ (ok15 /\ LookbackOK(T, e, post))
               tg  == IF e.op = "append" THEN ra ELSE Targets(T, e)
-          IN IF e.exc # "" THEN {<<"exc", j, e.exc, 0>>}
+          \* an exception is a finding unless it is the one the specification itself raises for this
+          \* input (InvalidCandleOrder on a stream that goes back in time)
+          IN IF e.exc # "" THEN (IF ~mid.ok /\ mid.err = e.exc THEN {<<"ok", j, "expected_exc", 0>>}
+                                 ELSE IF \E j2 \in 1..Len(T.mg) : ~mids[j2].ok /\ mids[j2].err = e.exc THEN {}
+                                 ELSE {<<"exc", j, e.exc, 0>>})
              \* a candle whose values could not be recovered exactly (long Heikin-Ashi chains
              \* outgrow 32 bits) cannot be judged: counted as unchecked, never as a verdict
              ELSE IF \E i \in 1..Len(post[j]) : post[j][i].x = 0 THEN {<<"unchecked", j, "inexact_candle", 0>>}
